@@ -215,6 +215,22 @@ def rejections(sess, suite):
         r = sess.call(req, EXACT, "refresh_dkg3-threshold")
         sess.oracle(r.err == "InvalidMinSigners", "distributed refresh changing the threshold not refused (%s)" % r.raw, [req])
         sess.case("dkgthr|" + req)
+    # threshold LOWERED by a distributed refresh, also when the public key package is a pre-3.0 one that records no threshold:
+    # the participant's own key package still does
+    r3, sh3, pkp3 = dealer(sess, suite, 4, 3, ids)
+    kps3 = keypkgs(sess, suite, sh3)
+    pk3 = pkp_fields(pkp3)
+    d = Dkg(sess, suite, 3, 2, ids[:3], refresh=True)
+    d.part1()
+    if d.ok:
+        d.part2()
+    if d.ok and kps3:
+        me = ids[0]
+        for pp, what in ((pkp3, "current"), (mk_pkp(pk3["vshares"], pk3["vk"], None), "legacy (no threshold recorded)")):
+            req = "refresh_dkg3 %s sp2=%s r1=%s r2=%s pkp=%s kp=%s" % (suite, d.sp2[me], r1_str(d.pkg1, me), r2_str(d.r2, me), pp, kps3[me])
+            r = sess.call(req, EXACT, "refresh_dkg3-lowered")
+            sess.oracle(r.err == "InvalidMinSigners", "distributed refresh LOWERING the threshold (3 -> 2) with a %s public key package not refused (%s)" % (what, r.raw[:70]), [req])
+            sess.case("dkglow|" + req)
     # distributed: ONE peer ran part 1 with another threshold (longer / shorter commitment); every position of that peer
     for tt in (3, 1 + 1):
         pass
